@@ -167,6 +167,14 @@ func runC43(c *core.Ctx) {
 		if isThrottlerMethod(cc, "EndProcessing") {
 			return 1
 		}
+		// a helper that may end the processing itself counts as an end at its call site
+		if _, isGo := in.(*ssa.Go); !isGo {
+			if g := cc.StaticCallee(); g != nil && g.Blocks != nil && core.InRepo(g) && !wrappers[g] {
+				if len(core.CallsIn(g, func(i2 ssa.Instruction, c2 *ssa.CallCommon) bool { return isThrottlerMethod(c2, "EndProcessing") })) > 0 {
+					return 1
+				}
+			}
+		}
 		if g, ok := in.(*ssa.Go); ok {
 			if mc, ok := g.Call.Value.(*ssa.MakeClosure); ok {
 				if body, ok := mc.Fn.(*ssa.Function); ok {
@@ -234,6 +242,35 @@ func runC43(c *core.Ctx) {
 		c.Check(okMax, "C43/start-end-paired", name+"/at-most-once", s.start.Pos(), "no path ends the processing twice", "a path calls EndProcessing more than once for one start: the counter drops below the number of running tasks")
 	}
 	c.Floor("C43/start-end-paired", 14)
+	// the counter itself: every access is a single atomic read-modify-write or load (a load followed by a store loses concurrent updates)
+	cnt := c.P.Field("core/throttler", "NumGoRoutinesThrottler", "counter")
+	if cnt == nil {
+		c.Undecided("anchor", "NumGoRoutinesThrottler.counter", 0, "field not found")
+		return
+	}
+	for _, fn := range c.P.FuncsOfPkg("core/throttler") {
+		core.Instrs(fn, func(in ssa.Instruction) {
+			fa, ok := in.(*ssa.FieldAddr)
+			if !ok || core.FieldOfAddr(fa) != cnt {
+				return
+			}
+			if _, fresh := fa.X.(*ssa.Alloc); fresh {
+				return
+			}
+			for _, r := range *fa.Referrers() {
+				okUse, what := false, fmt.Sprintf("%T", r)
+				if cc := core.CallOf(r); cc != nil {
+					d := core.CallDesc(cc)
+					what = d.String()
+					if d.Pkg == "sync/atomic" && (strings.HasPrefix(d.Name, "Add") || strings.HasPrefix(d.Name, "Load") || strings.HasPrefix(d.Name, "CompareAndSwap")) {
+						okUse = true
+					}
+				}
+				c.Check(okUse, "C43/counter-atomic", fname(fn)+"/"+what, r.Pos(), "atomic add / load / compare-and-swap", "the running-task counter is accessed by "+what+": a separate load and store (or a plain access) loses concurrent increments, so the counter under-counts running tasks")
+			}
+		})
+	}
+	c.Floor("C43/counter-atomic", 3)
 }
 
 // sameMutexAcross: a mutex is write-held at the start call and was acquired before the dominating CanProcess call.
